@@ -38,12 +38,34 @@ Proof.
   destruct (Z.compare_spec (2 * r) den) as [C|C|C]; [destruct (Z.even q)| |]; lia.
 Qed.
 
+(* the rounded quotient has the sign of the numerator (or is zero) *)
+Lemma rhe_sign num den :
+  0 < den ->
+  (num < 0 -> round_half_even num den <= 0) /\ (0 <= num -> 0 <= round_half_even num den).
+Proof.
+  intro Hd. unfold round_half_even.
+  pose proof (Z.div_mod num den ltac:(lia)) as E.
+  pose proof (Z.mod_pos_bound num den Hd) as [R0 R1].
+  set (q := num / den) in *. set (r := num mod den) in *.
+  assert (Q1 : num < 0 -> q <= -1) by nia.
+  assert (Q2 : 0 <= num -> 0 <= q) by nia.
+  split; intro H; [specialize (Q1 H)|specialize (Q2 H)];
+    destruct (Z.compare_spec (2 * r) den); try destruct (Z.even q); lia.
+Qed.
+
 Section Fmt.
   Variables (vn : Z) (vd sn sd : positive) (decimals : nat).
   Hypothesis Hwf : step_wf sn sd decimals = true.
 
   Let k := step_count vn vd sn sd.
   Let P := 10 ^ Z.of_nat decimals.
+
+  Lemma k_sign : (vn < 0 -> k <= 0) /\ (0 <= vn -> 0 <= k).
+  Proof.
+    unfold k, step_count.
+    destruct (rhe_sign (vn * Zpos sd) (Zpos vd * Zpos sn) ltac:(lia)) as [A B].
+    split; intro H; [apply A|apply B]; nia.
+  Qed.
 
   Lemma P_pos : 0 < P.
   Proof. unfold P. apply Z.pow_pos_nonneg; lia. Qed.
@@ -86,13 +108,17 @@ Section Fmt.
     rewrite Z2N.id by exact Hsc.
     unfold mant. fold sc.
     pose proof scaled_exact as SE. fold sc in SE.
-    destruct (Z.ltb_spec k 0) as [Hk|Hk]; cbn [andb].
-    - assert (0 < sc).
-      { assert (0 < Z.abs k * Zpos sn * P) by (pose proof (Z.abs_pos k); nia). nia. }
-      destruct (N.ltb_spec 0 (Z.to_N sc)) as [_|C]; [|lia].
-      rewrite Z.sgn_neg by exact Hk. lia.
-    - destruct (Z.eq_dec k 0) as [->|Hnz].
-      + cbn. unfold sc. cbn. reflexivity.
+    destruct k_sign as [KS1 KS2].
+    assert (Hpos : k <> 0 -> 0 < sc).
+    { intro Hnz. assert (0 < Z.abs k * Zpos sn * P) by (pose proof (Z.abs_pos k); nia). nia. }
+    assert (Hzero : k = 0 -> sc = 0) by (intro Hz; unfold sc; rewrite Hz; reflexivity).
+    destruct (Z.ltb_spec vn 0) as [Hv|Hv]; cbn [andb].
+    - specialize (KS1 Hv). destruct (Z.eq_dec k 0) as [Hz|Hnz].
+      + rewrite (Hzero Hz). rewrite Hz. reflexivity.
+      + specialize (Hpos Hnz). destruct (N.ltb_spec 0 (Z.to_N sc)) as [_|C]; [|lia].
+        rewrite Z.sgn_neg by lia. lia.
+    - specialize (KS2 Hv). destruct (Z.eq_dec k 0) as [Hz|Hnz].
+      + rewrite (Hzero Hz). rewrite Hz. reflexivity.
       + rewrite Z.sgn_pos by lia. lia.
   Qed.
 
@@ -118,14 +144,15 @@ Section Fmt.
     pose proof scaled_exact as SE. fold sc in SE.
     assert (A : Z.abs (Z.sgn k * sc) = sc \/ k = 0).
     { destruct (Z.eq_dec k 0); [now right|left]. clear SE. destruct k as [|p|p]; [contradiction| |]; cbn [Z.sgn]; lia. }
+    destruct k_sign as [KS1 KS2].
     destruct (Z.eq_dec k 0) as [K0|Knz].
-    - subst sc. rewrite K0. cbn. reflexivity.
+    - subst sc. rewrite K0. cbn. rewrite andb_false_r. reflexivity.
     - destruct A as [A|A]; [|contradiction]. rewrite A. f_equal.
-      destruct (Z.ltb_spec k 0) as [Hk|Hk]; cbn [andb].
-      + assert (0 < sc).
-        { assert (0 < Z.abs k * Zpos sn * P) by (pose proof (Z.abs_pos k); nia). nia. }
-        rewrite Z.sgn_neg by exact Hk.
+      assert (0 < sc).
+      { assert (0 < Z.abs k * Zpos sn * P) by (pose proof (Z.abs_pos k); nia). nia. }
+      destruct (Z.ltb_spec vn 0) as [Hv|Hv]; cbn [andb].
+      + specialize (KS1 Hv). rewrite Z.sgn_neg by lia.
         destruct (N.ltb_spec 0 (Z.to_N sc)); destruct (Z.ltb_spec (-1 * sc) 0); lia.
-      + rewrite Z.sgn_pos by lia. destruct (Z.ltb_spec (1 * sc) 0); lia.
+      + specialize (KS2 Hv). rewrite Z.sgn_pos by lia. destruct (Z.ltb_spec (1 * sc) 0); lia.
   Qed.
 End Fmt.
